@@ -491,9 +491,11 @@ def mutate(seedtext, rnd):
 def macro_cycle(src, args):
     """does some macro (from #define lines or -D options) mention itself, directly or through other macros?"""
     defs = {}
-    for m in re.finditer(r"^[ \t]*#[ \t]*define[ \t]+([A-Za-z_]\w*)(\([^)]*\))?(.*)$", src, re.M):
+    src = src.replace("\\\r\n", "").replace("\\\n", "")          # splices are removed before directives are read
+    for m in re.finditer(r"^[ \t]*#[ \t]*define[ \t]+([A-Za-z_]\w*)(.*)$", src, re.M):
+        # everything after the name counts as body (a malformed parameter list is read as text by the preprocessor)
         defs.setdefault(m.group(1), "")
-        defs[m.group(1)] += " " + m.group(3)
+        defs[m.group(1)] += " " + m.group(2)
     for a in args:
         if a.startswith("-D") and len(a) > 2:
             n, _, v = a[2:].partition("=")
